@@ -373,6 +373,12 @@ func (lc *lockCase) settle(expectCas int) bool {
 			}
 			select {
 			case res := <-w.result:
+				// (a Shutdown issued from inside this very attempt was recorded before the attempt could return: it
+				// must be in the trace BEFORE the return, even if the look at shutBy above came too early)
+				if p := atomic.SwapInt32(&lc.shutBy, 0); p > 0 {
+					lc.provDown[p-1] = true
+					lc.ev(fmt.Sprintf("shutdown %d", p-1))
+				}
 				w.running = false
 				if w.kind == "unlock" {
 					w.inUnlock = false
